@@ -403,7 +403,7 @@ theorem runEv_facts (ws : List Nat) (h2 : 2 ≤ ws.length) (evs : List Ev) (heal
 
 theorem lookupOk_parts {ws : List Nat} {r : Rec} (h : lookupOk ws r = true) :
     (∀ x ∈ r.picks, x < ws.length) ∧ (∀ x ∈ r.picks.dropLast, r.healthyAt x = false) ∧
-    ((decide (2 ≤ ws.length) && !wsEqual ws) = true → r.picks ≠ []) ∧
+    (expectSched ws = true → r.picks ≠ []) ∧
     (r.weighted = true → r.result = r.picks.getLast?) := by
   unfold lookupOk at h
   simp only [Bool.and_eq_true, List.all_eq_true, decide_eq_true_eq, Bool.or_eq_true, Bool.not_eq_true'] at h
@@ -459,7 +459,7 @@ theorem count_allPicks {ws : List Nat} {recs : List Rec} (hok : ∀ r ∈ recs, 
     rw [h1, h2]
     omega
 
-theorem length_allPicks {ws : List Nat} {recs : List Rec} (he : (decide (2 ≤ ws.length) && !wsEqual ws) = true)
+theorem length_allPicks {ws : List Nat} {recs : List Rec} (he : expectSched ws = true)
     (hok : ∀ r ∈ recs, lookupOk ws r = true) : recs.length ≤ (allPicks recs).length := by
   induction recs with
   | nil => simp
@@ -499,5 +499,349 @@ theorem run_lag_int (ws : List Nat) (s : Sched) (hok : SchedOK ws s) (H : List (
   have := Rat.intCast_le_intCast.mp hle
   unfold lagVal at this
   exact this
+
+/-! ### a host that waits: how many picks can pass -/
+
+theorem sum_map_le {l : List Nat} {f g : Nat → Nat} (h : ∀ j ∈ l, f j ≤ g j) : (l.map f).sum ≤ (l.map g).sum := by
+  induction l with
+  | nil => simp
+  | cons a r ih =>
+    have h1 := h a List.mem_cons_self
+    have h2 := ih (fun j hj => h j (List.mem_cons_of_mem _ hj))
+    simp only [List.map_cons, List.sum_cons]
+    omega
+
+theorem sum_map_mul (l : List Nat) (f : Nat → Nat) (c : Nat) : (l.map f).sum * c = (l.map (fun j => f j * c)).sum := by
+  induction l with
+  | nil => simp
+  | cons a r ih => simp only [List.map_cons, List.sum_cons, Nat.add_mul, ih]
+
+theorem sum_map_add (l : List Nat) (f g : Nat → Nat) :
+    (l.map (fun j => f j + g j)).sum = (l.map f).sum + (l.map g).sum := by
+  induction l with
+  | nil => simp
+  | cons a r ih => simp only [List.map_cons, List.sum_cons, ih]; omega
+
+theorem sum_map_const (l : List Nat) (c : Nat) : (l.map (fun _ => c)).sum = l.length * c := by
+  induction l with
+  | nil => simp
+  | cons a r ih => simp only [List.map_cons, List.sum_cons, ih, List.length_cons, Nat.add_mul]; omega
+
+theorem sum_indicator (n x : Nat) :
+    ((List.range n).map (fun j => if x = j then 1 else 0)).sum = if x < n then 1 else 0 := by
+  induction n with
+  | zero => simp
+  | succ n ih =>
+    rw [List.range_succ, List.map_append, List.sum_append, ih]
+    simp only [List.map_cons, List.map_nil, List.sum_cons, List.sum_nil]
+    by_cases h1 : x < n
+    · have : ¬ x = n := by omega
+      have h2 : x < n + 1 := by omega
+      simp [h1, this, h2]
+    · by_cases h2 : x = n
+      · subst h2; simp
+      · have : ¬ x < n + 1 := by omega
+        simp [h1, h2, this]
+
+/-- every pick is a host below `n`: the per-host counts add up to the number of picks. -/
+theorem length_eq_sum_count (n : Nat) (p : List Nat) (h : ∀ x ∈ p, x < n) :
+    ((List.range n).map (fun j => p.count j)).sum = p.length := by
+  induction p with
+  | nil => simp [sum_map_const]
+  | cons x r ih =>
+    have hx := h x List.mem_cons_self
+    have := ih (fun y hy => h y (List.mem_cons_of_mem _ hy))
+    have e : (fun j => (x :: r).count j) = (fun j => r.count j + (if x = j then 1 else 0)) := by
+      funext j
+      rw [List.count_cons]
+      by_cases hxj : x = j <;> simp [hxj]
+    rw [e, sum_map_add, this, sum_indicator]
+    simp [hx]
+
+/-- effective weights as naturals. -/
+def wN (ws : List Nat) (k : Nat) : Nat := (wrrW ws k).toNat
+
+theorem wN_cast (ws : List Nat) (k : Nat) : ((wN ws k : Nat) : Int) = wrrW ws k := by
+  unfold wN
+  exact Int.toNat_of_nonneg (Int.le_of_lt (wrrW_pos ws k))
+
+theorem wN_pos (ws : List Nat) (k : Nat) : 0 < wN ws k := by
+  have := wrrW_pos ws k
+  have := wN_cast ws k
+  omega
+
+/-- **a waiting host bounds the run**: in a run of the scheduler that never picks host `i`, host `j` is picked at most
+`wⱼ/wᵢ + 1` times, so the run is shorter than `⌊Σw/wᵢ⌋ + n + 1`. -/
+theorem serve_gap (ws : List Nat) (s : Sched) (hok : SchedOK ws s) (H : List (Option Nat)) (i : Nat) (hi : i < ws.length)
+    (hc : (s.run (wrrWeight ws) H).1.count i = 0) (hlt : ∀ x ∈ (s.run (wrrWeight ws) H).1, x < ws.length) :
+    (s.run (wrrWeight ws) H).1.length < serveWindow ws i := by
+  generalize hp : (s.run (wrrWeight ws) H).1 = picks at hc hlt
+  have hj : ∀ j ∈ List.range ws.length, picks.count j * wN ws i ≤ wN ws i + wN ws j := by
+    intro j hj
+    have hj' : j < ws.length := by simpa using hj
+    have := run_lag_int ws s hok H j i hj' hi
+    rw [hp, hc, ← wN_cast ws i, ← wN_cast ws j] at this
+    simp only [Int.natCast_zero, Int.zero_mul, Int.sub_zero] at this
+    have h2 : ((picks.count j * wN ws i : Nat) : Int) ≤ ((wN ws i + wN ws j : Nat) : Int) := by
+      rw [Int.natCast_mul, Int.natCast_add]; omega
+    exact Int.ofNat_le.mp h2
+  have hsum := sum_map_le hj
+  rw [← sum_map_mul, length_eq_sum_count ws.length picks hlt, sum_map_add, sum_map_const, List.length_range] at hsum
+  unfold serveWindow effW
+  have hw := wN_pos ws i
+  generalize hT : ((List.range ws.length).map (fun j => wN ws j)).sum = T at hsum
+  have hT' : ((List.range ws.length).map (fun j => (wrrW ws j).toNat)).sum = T := hT
+  rw [hT']
+  show picks.length < T / wN ws i + ws.length + 1
+  have h3 := Nat.lt_mul_div_succ T hw
+  apply Nat.lt_of_not_le
+  intro hge
+  have h4 := Nat.mul_le_mul_right (wN ws i) hge
+  have h5 : (T / wN ws i + ws.length + 1) * wN ws i = wN ws i * (T / wN ws i + 1) + ws.length * wN ws i := by
+    rw [Nat.mul_comm (wN ws i)]
+    simp only [Nat.add_mul]
+    omega
+  omega
+
+/-! ### windows of consecutive lookups -/
+
+/-- the lookups `recs` were made one after the other on a balancer whose scheduler was `s` before the first of them:
+their picks, concatenated, are a run of `s`, and each of them satisfies the per-lookup predicate. -/
+def IsRun (ws : List Nat) (s : Sched) (recs : List Rec) : Prop :=
+  ∃ H s', s.run (wrrWeight ws) H = (allPicks recs, s') ∧ H.length = (allPicks recs).length ∧
+    ∀ r ∈ recs, lookupOk ws r = true
+
+theorem run_prefix_full (wf : Nat → Rat) (H1 H2 : List (Option Nat)) (s : Sched)
+    (hl : (s.run wf (H1 ++ H2)).1.length = (H1 ++ H2).length) : (s.run wf H1).1.length = H1.length := by
+  induction H1 generalizing s with
+  | nil => simp [Sched.run]
+  | cons h t ih =>
+    cases hn : s.nextAndPush wf h with
+    | none =>
+      rw [List.cons_append, Sched.run] at hl
+      simp [hn] at hl
+    | some p =>
+      obtain ⟨i, s'⟩ := p
+      rw [List.cons_append, run_cons_some (t ++ H2) hn] at hl
+      rw [run_cons_some t hn]
+      simp only [List.length_cons, Nat.add_right_cancel_iff] at hl ⊢
+      exact ih s' hl
+
+theorem allPicks_append (A B : List Rec) : allPicks (A ++ B) = allPicks A ++ allPicks B := by
+  simp [allPicks]
+
+/-- a run of lookups splits: the later lookups are a run from the (reachable) scheduler the earlier ones leave. -/
+theorem isRun_split (ws : List Nat) (s : Sched) (hok : SchedOK ws s) (A B : List Rec) (h : IsRun ws s (A ++ B)) :
+    IsRun ws s A ∧ ∃ s1, SchedOK ws s1 ∧ IsRun ws s1 B := by
+  obtain ⟨H, s', h1, h2, h3⟩ := h
+  rw [allPicks_append] at h1 h2
+  rw [List.length_append] at h2
+  have hH : H = H.take (allPicks A).length ++ H.drop (allPicks A).length := (List.take_append_drop _ _).symm
+  have hlen1 : (H.take (allPicks A).length).length = (allPicks A).length := by
+    rw [List.length_take]; omega
+  have hfull : (s.run (wrrWeight ws) (H.take (allPicks A).length ++ H.drop (allPicks A).length)).1.length =
+      (H.take (allPicks A).length ++ H.drop (allPicks A).length).length := by
+    rw [← hH, h1]; simp [h2]
+  have hpre := run_prefix_full _ _ _ _ hfull
+  have happ := run_append (wrrWeight ws) _ (H.drop (allPicks A).length) s hpre
+  rw [← hH, h1] at happ
+  have hfst := congrArg Prod.fst happ
+  have hsnd := congrArg Prod.snd happ
+  simp only at hfst hsnd
+  have hinj := List.append_inj hfst (by rw [hpre, hlen1])
+  obtain ⟨r1, r2, r3, _, _⟩ := run_facts (wrrWeight ws) (wrrWeight_pos ws) (H.take (allPicks A).length) s hok.1 hok.2.1
+  refine ⟨⟨H.take (allPicks A).length, (s.run (wrrWeight ws) (H.take (allPicks A).length)).2, ?_, hlen1,
+    fun r hr => h3 r (List.mem_append_left _ hr)⟩, (s.run (wrrWeight ws) (H.take (allPicks A).length)).2,
+    ⟨r1, r2, r3.trans hok.2.2⟩, ⟨H.drop (allPicks A).length, s', ?_, ?_, fun r hr => h3 r (List.mem_append_right _ hr)⟩⟩
+  · rw [Prod.ext_iff]; exact ⟨hinj.1.symm, rfl⟩
+  · rw [Prod.ext_iff]; exact ⟨hinj.2.symm, hsnd.symm⟩
+  · rw [List.length_drop]; omega
+
+/-- every window (start `a`, length `len`) of a run of lookups is a run of lookups from a reachable scheduler. -/
+theorem isRun_window (ws : List Nat) (s : Sched) (hok : SchedOK ws s) (recs : List Rec) (h : IsRun ws s recs)
+    (a len : Nat) : ∃ s1, SchedOK ws s1 ∧ IsRun ws s1 ((recs.drop a).take len) := by
+  rw [← List.take_append_drop a recs] at h
+  obtain ⟨_, s1, ok1, run1⟩ := isRun_split ws s hok _ _ h
+  rw [← List.take_append_drop len (recs.drop a)] at run1
+  obtain ⟨run2, _⟩ := isRun_split ws s1 ok1 _ _ run1
+  exact ⟨s1, ok1, run2⟩
+
+/-- **served within the window**: a host healthy throughout a window of at least `serveWindow` lookups is served by a
+weighted pick in it. -/
+theorem isRun_serves (ws : List Nat) (he : expectSched ws = true) (s : Sched) (hok : SchedOK ws s) (recs : List Rec)
+    (h : IsRun ws s recs) (i : Nat) (hi : i < ws.length) (hh : healthyThroughout recs i = true)
+    (hw : serveWindow ws i ≤ recs.length) : 0 < served recs i := by
+  obtain ⟨H, s', h1, _, h3⟩ := h
+  apply Nat.pos_of_ne_zero
+  intro h0
+  have hc : (s.run (wrrWeight ws) H).1.count i = 0 := by rw [h1]; simp only; rw [count_allPicks h3 hh, h0]
+  have hlt : ∀ x ∈ (s.run (wrrWeight ws) H).1, x < ws.length := by rw [h1]; exact allPicks_lt h3
+  have := serve_gap ws s hok H i hi hc hlt
+  rw [h1] at this
+  have := length_allPicks he h3
+  simp only at *
+  omega
+
+/-- **the lag bound over hosts healthy throughout the window** (integer form: multiplied by `wᵢ·wⱼ`). -/
+theorem isRun_pair_int (ws : List Nat) (s : Sched) (hok : SchedOK ws s) (recs : List Rec) (h : IsRun ws s recs)
+    (i j : Nat) (hi : i < ws.length) (hj : j < ws.length) (hhi : healthyThroughout recs i = true)
+    (hhj : healthyThroughout recs j = true) :
+    ((served recs i : Nat) : Int) * wrrW ws j - ((served recs j : Nat) : Int) * wrrW ws i ≤ wrrW ws i + wrrW ws j := by
+  obtain ⟨H, s', h1, _, h3⟩ := h
+  have := run_lag_int ws s hok H i j hi hj
+  rw [h1] at this
+  simp only at this
+  rw [count_allPicks h3 hhi, count_allPicks h3 hhj] at this
+  exact this
+
+/-- … and in the statement's form `nᵢ/wᵢ − nⱼ/wⱼ ≤ 1/wᵢ + 1/wⱼ`. -/
+theorem isRun_pair_rat (ws : List Nat) (s : Sched) (hok : SchedOK ws s) (recs : List Rec) (h : IsRun ws s recs)
+    (i j : Nat) (hi : i < ws.length) (hj : j < ws.length) (hhi : healthyThroughout recs i = true)
+    (hhj : healthyThroughout recs j = true) :
+    ((served recs i : Nat) : Rat) / wrrWeight ws i - ((served recs j : Nat) : Rat) / wrrWeight ws j
+      ≤ 1 / wrrWeight ws i + 1 / wrrWeight ws j := by
+  obtain ⟨H, s', h1, _, h3⟩ := h
+  obtain ⟨o1, o2, o3⟩ := hok
+  obtain ⟨ei, hei, rfl⟩ := mem_of_item_mem (l := s.entries) (i := i) (by rw [o3]; simpa using hi)
+  obtain ⟨ej, hej, rfl⟩ := mem_of_item_mem (l := s.entries) (i := j) (by rw [o3]; simpa using hj)
+  have := window_bound (wrrWeight ws) (wrrWeight_pos ws) H s o1 o2 hei hej
+  rw [h1] at this
+  simp only at this
+  rw [count_allPicks h3 hhi, count_allPicks h3 hhj] at this
+  exact this
+
+theorem isRun_windowOk (ws : List Nat) (he : expectSched ws = true) (s : Sched) (hok : SchedOK ws s) (recs : List Rec)
+    (h : IsRun ws s recs) : windowOk ws recs = true := by
+  unfold windowOk
+  simp only [List.all_eq_true, List.mem_range, Bool.or_eq_true, Bool.not_eq_true', Bool.and_eq_true,
+    decide_eq_true_eq]
+  intro i hi
+  cases hhi : healthyThroughout recs i
+  · exact Or.inl rfl
+  · right
+    refine ⟨?_, ?_⟩
+    · by_cases hw : recs.length < serveWindow ws i
+      · exact Or.inl hw
+      · exact Or.inr (isRun_serves ws he s hok recs h i hi hhi (by omega))
+    · intro j hj
+      cases hhj : healthyThroughout recs j
+      · exact Or.inl rfl
+      · right
+        unfold pairBound effW
+        simp only [decide_eq_true_eq]
+        exact isRun_pair_int ws s hok recs h i j hi hj hhi hhj
+
+theorem mem_windows {recs w : List Rec} (h : w ∈ windows recs) : ∃ a len, w = (recs.drop a).take len := by
+  unfold windows at h
+  simp only [List.mem_flatMap, List.mem_map] at h
+  obtain ⟨a, _, len, _, rfl⟩ := h
+  exact ⟨a, len, rfl⟩
+
+/-- the executable predicate holds of every run of lookups on a weighted balancer. -/
+theorem isRun_specH (ws : List Nat) (he : expectSched ws = true) (s : Sched) (hok : SchedOK ws s) (recs : List Rec)
+    (h : IsRun ws s recs) : specH ws recs = true := by
+  unfold specH
+  simp only [Bool.and_eq_true, List.all_eq_true, Bool.or_eq_true]
+  refine ⟨h.choose_spec.choose_spec.2.2, Or.inr ?_⟩
+  intro w hw
+  obtain ⟨a, len, rfl⟩ := mem_windows hw
+  obtain ⟨s1, ok1, run1⟩ := isRun_window ws s hok recs h a len
+  exact isRun_windowOk ws he s1 ok1 _ run1
+
+/-- events on a weighted balancer: the records are a run of lookups and the balancer keeps a scheduler. -/
+theorem runEv_isRun (ws : List Nat) (h2 : 2 ≤ ws.length) (evs : List Ev) (health : List Bool) (st : LBState) (s : Sched)
+    (hst : st.sched = some s) (hok : SchedOK ws s) :
+    IsRun ws s (runEv ws health st evs).1 ∧
+      ∃ s', (runEv ws health st evs).2.2.sched = some s' ∧ SchedOK ws s' := by
+  obtain ⟨H, s', a, b, c, d, e⟩ := runEv_facts ws h2 evs health st s hst hok
+  exact ⟨⟨H, s', c, d, e⟩, s', a, b⟩
+
+theorem expectSched_iff (ws : List Nat) : expectSched ws = true ↔ 2 ≤ ws.length ∧ wsEqual ws = false := by
+  unfold expectSched
+  simp
+
+/-! ### a balancer without scheduler (fewer than two hosts, or equal configured weights) -/
+
+theorem runEv_nosched (ws : List Nat) (he : expectSched ws = false) (evs : List Ev) (health : List Bool) (st : LBState)
+    (hst : st.sched = none) :
+    (runEv ws health st evs).2.2.sched = none ∧ ∀ r ∈ (runEv ws health st evs).1, lookupOk ws r = true := by
+  induction evs generalizing health st with
+  | nil => simpa [runEv] using hst
+  | cons e r ih =>
+    cases e with
+    | flip i b =>
+      simp only [runEv, stepEv]
+      exact ih (health.set i b) st hst
+    | look hints =>
+      simp only [runEv, stepEv]
+      have hp : picksOf (mkH ws health) st hints = [] := by
+        unfold picksOf; simp [hst]
+      have hst' : (wrrChoose (mkH ws health) st { hints := hints }).st.sched = none := by
+        unfold wrrChoose edfFront
+        simp only [hst]
+        split <;> rename_i heq
+        · split at heq <;> first | (split at heq <;> simp at heq <;> (obtain ⟨_, rfl, _⟩ := heq; exact hst)) | skip
+          all_goals simp at heq; obtain ⟨_, rfl, _⟩ := heq; exact hst
+        · split at heq <;> first | (split at heq <;> simp at heq <;> (obtain ⟨rfl, _⟩ := heq; simpa using hst)) | skip
+          all_goals simp at heq
+      obtain ⟨i1, i2⟩ := ih health _ hst'
+      refine ⟨i1, ?_⟩
+      intro x hx
+      simp only [List.mem_cons] at hx
+      rcases hx with rfl | hx
+      · unfold lookupOk
+        simp only [hp, he, Rec.weighted]
+        have := good_specChoice (wrrChoose_good (mkH ws health) st { hints := hints })
+        simp [this]
+      · exact i2 x hx
+
+theorem newStateH_nosched (ws : List Nat) (he : expectSched ws = false) (hp0 : List Bool) (rr0 : Nat)
+    (pre : List (Option Nat)) : (newStateH ws hp0 rr0 pre).sched = none := by
+  unfold newStateH newStateWith
+  unfold expectSched at he
+  simp only [Bool.and_eq_false_iff, decide_eq_false_iff_not, Bool.not_eq_false'] at he
+  rcases he with he | he
+  · have : EdfRefresh.skipSmall (ws.length : Int) = true := by simp [EdfRefresh.skipSmall]; omega
+    simp [this]
+  · simp [EdfRefresh.skipEqual, he]
+
+/-- C05 for a lookup that satisfies the per-lookup predicate: a member of the set; healthy when some host is healthy;
+no host only when none is. -/
+theorem lookupOk_specChoice {ws : List Nat} {r : Rec} (h : lookupOk ws r = true) :
+    specChoice (mkH ws r.health) r.result = true := by
+  obtain ⟨a, _, _, d⟩ := lookupOk_parts h
+  cases hw : r.weighted
+  · unfold lookupOk at h
+    simp only [hw, Bool.false_eq_true, if_false, Bool.and_eq_true] at h
+    exact h.2.2
+  · have hres := d hw
+    unfold Rec.weighted at hw
+    cases hl : r.picks.getLast? with
+    | none => rw [hl] at hw; simp at hw
+    | some l =>
+      rw [hl] at hw hres
+      have hlt := a l (List.mem_of_getLast? hl)
+      have hh : hAt (mkH ws r.health) l = true := by rw [hAt_mkH_lt hlt]; exact hw
+      rw [hres]
+      unfold specChoice
+      simp [hh, mkH_length, hlt]
+
+/-- the executable predicate holds of the lookups of EVERY sequence of health flips and lookups, from every state
+reachable after the balancer was built over ANY build-time health pattern — all weight vectors (weighted or not). -/
+theorem specH_model (ws : List Nat) (hp0 : List Bool) (rr0 : Nat) (pre : List (Option Nat)) (before window : List Ev) :
+    specH ws (runEv ws (runEv ws hp0 (newStateH ws hp0 rr0 pre) before).2.1
+      (runEv ws hp0 (newStateH ws hp0 rr0 pre) before).2.2 window).1 = true := by
+  cases he : expectSched ws
+  · have h0 := newStateH_nosched ws he hp0 rr0 pre
+    obtain ⟨h1, _⟩ := runEv_nosched ws he before hp0 _ h0
+    obtain ⟨_, h2⟩ := runEv_nosched ws he window _ _ h1
+    unfold specH
+    simp only [he, Bool.not_false, Bool.true_or, Bool.and_true, List.all_eq_true]
+    exact h2
+  · obtain ⟨h2, hneq⟩ := (expectSched_iff ws).mp he
+    have h0 := newStateH_sched ws h2 hneq hp0 rr0 pre
+    obtain ⟨_, s1, hs1, ok1⟩ := runEv_isRun ws h2 before hp0 _ _ h0 (refresh_ok ws pre)
+    obtain ⟨run2, _⟩ := runEv_isRun ws h2 window _ _ s1 hs1 ok1
+    exact isRun_specH ws he s1 ok1 _ run2
 
 end MosnVerif.Model.WrrHealth
